@@ -279,6 +279,22 @@ MultiHeadSet(z) == LET lv == {<<k[1], k[2], o[1], o[2]>> :
                                 o \in {<<1, 1>>, <<0, 1>>, <<0, Inf>>}}
                    IN {g \in GroupsOver(lv, {"s", "c"}, OccSmall) :
                          \E i \in DOMAIN g[2] : g[2][i][1] = "h"}
+(* XSD 1.1: xs:all with members that must occur twice or more *)
+All11QSet(z) == {<<"a", ks, o[1], o[2]>> :
+                   ks \in UNION {{[i \in 1..n |-> <<"e", t[i], f[i][1], f[i][2]>>] :
+                                    t \in Inj({"a", "b"}, n), f \in [1..n -> {<<1, 1>>, <<0, 2>>, <<2, 2>>, <<2, 3>>}]}
+                                  : n \in 1..2},
+                   o \in {<<1, 1>>, <<0, 1>>}}
+(* a wildcard NESTED in an inner group next to an element declaration of the outer group (XSD 1.1: the     *)
+(* element wins wherever it is declared in the content model) *)
+NestWSet(z) == LET xs == ElemLeaves({"a", "b"}, {<<1, 1>>, <<0, Inf>>})
+                   ws == {<<"w", c, o[1], o[2]>> : c \in {"any", "tns"}, o \in {<<1, 1>>, <<0, Inf>>}}
+                   yb == <<"e", "b", 1, 1>>
+                   inner == {<<k, ks, o[1], o[2]>> : k \in {"s", "c"},
+                               ks \in {<<w>> : w \in ws} \cup {<<yb, w>> : w \in ws} \cup {<<w, yb>> : w \in ws},
+                               o \in {<<1, 1>>, <<0, Inf>>}}
+               IN {<<k, ks, 1, 1>> : k \in {"s", "c"},
+                     ks \in {<<x, g>> : x \in xs, g \in inner} \cup {<<g, x>> : x \in xs, g \in inner}}
 (* three particles: leaf, inner group, leaf (what lies BETWEEN two competing particles matters) *)
 Mid3Set(z) == LET lv == ElemLeaves({"a", "b"}, {<<1, 1>>, <<0, 1>>, <<0, Inf>>})
                   inner == GroupsOver(ElemLeaves({"a", "b"}, {<<1, 1>>, <<0, 1>>}), {"s", "c"}, {<<1, 1>>, <<0, 1>>})
@@ -306,6 +322,8 @@ Family(name) == CASE name = "Depth1"  -> Depth1Set(0)
                   [] name = "LeafVar" -> LeafVarSet(0)
                   [] name = "LeafVarF" -> LeafVarFSet(0)
                   [] name = "Mid3"    -> Mid3Set(0)
+                  [] name = "All11Q"  -> All11QSet(0)
+                  [] name = "NestW"   -> NestWSet(0)
                   [] name = "MultiHead" -> MultiHeadSet(0)
                   [] name = "Zero"    -> ZeroSet(0)
                   [] name = "Typed"   -> TypedSet(0)
